@@ -313,6 +313,229 @@ theorem unpack_lengths (sizes : List Nat) (y : List ℝ) (h : sizes.sum = y.leng
     rw [ih (y.drop n) (by simp; omega)]
     congr 1; omega
 
+/-! ## tiling and the carving of remnant bins -/
+
+/-- consecutive bins share their edge and every bin is proper -/
+def Tiles : List (Bin ℝ) → Prop
+  | [] => True
+  | [b] => b.1 < b.2
+  | b :: b' :: t => b.1 < b.2 ∧ b.2 = b'.1 ∧ Tiles (b' :: t)
+
+theorem Tiles.head_lt {b : Bin ℝ} {t : List (Bin ℝ)} (h : Tiles (b :: t)) : b.1 < b.2 := by
+  cases t with
+  | nil => exact h
+  | cons b' t => exact h.1
+
+theorem Tiles.tail {b : Bin ℝ} {t : List (Bin ℝ)} (h : Tiles (b :: t)) : Tiles t := by
+  cases t with
+  | nil => trivial
+  | cons b' t => exact h.2.2
+
+/-- strictly increasing edges give a tiling -/
+theorem binsOfEdges_tiles (es : List ℝ) (h : es.Pairwise (· < ·)) : Tiles (binsOfEdges es) := by
+  induction es with
+  | nil => trivial
+  | cons a t ih =>
+    cases t with
+    | nil => trivial
+    | cons b t' =>
+      have hab : a < b := (List.pairwise_cons.1 h).1 b List.mem_cons_self
+      have ht := ih (List.pairwise_cons.1 h).2
+      cases t' with
+      | nil => simpa [binsOfEdges, Tiles] using hab
+      | cons c t'' =>
+        simp only [binsOfEdges] at ht ⊢
+        exact ⟨hab, rfl, ht⟩
+
+/-- in a tiling every later lower edge is at least the first upper edge -/
+theorem Tiles.lower_ge {b : Bin ℝ} {t : List (Bin ℝ)} (h : Tiles (b :: t)) : ∀ c ∈ t, b.2 ≤ c.1 := by
+  induction t generalizing b with
+  | nil => intro c hc; cases hc
+  | cons b' t ih =>
+    intro c hc
+    rcases List.mem_cons.1 hc with rfl | hc
+    · exact h.2.1.le
+    · have := ih h.2.2 c hc
+      have hb' := (Tiles.head_lt h.2.2)
+      rw [h.2.1]; linarith
+
+/-- **exactly one NS bin**: a mass inside the range of a tiling lies in exactly one half-open bin -/
+theorem carveNS_one (bins : List (Bin ℝ)) (m : ℝ) (ht : Tiles bins) (hne : bins ≠ [])
+    (hlo : (bins.head hne).1 ≤ m) (hhi : m < (bins.getLast hne).2) : (carveNS bins m).length = 1 := by
+  induction bins with
+  | nil => exact absurd rfl hne
+  | cons b t ih =>
+    unfold carveNS
+    simp only [List.head_cons] at hlo
+    by_cases hin : m < b.2
+    · -- this bin holds it, no later one does
+      have hlater : t.filter (fun c => Scalar.le c.1 m && Scalar.lt m c.2) = [] := by
+        rw [List.filter_eq_nil_iff]
+        intro c hc
+        have := Tiles.lower_ge ht c hc
+        simp only [Scalar.le, Scalar.lt, Bool.and_eq_true, decide_eq_true_eq, not_and, not_lt]
+        intro h1; linarith
+      simp only [List.filter_cons, Scalar.le, Scalar.lt, hlo, hin, decide_true, Bool.and_self, if_true]
+      have := hlater
+      simp only [Scalar.le, Scalar.lt] at this
+      rw [this]; rfl
+    · push Not at hin
+      cases t with
+      | nil => simp only [List.getLast_singleton] at hhi; linarith
+      | cons b' t' =>
+        have hne' : (b' :: t') ≠ [] := by simp
+        have hrec := ih (Tiles.tail ht) hne' (by simp only [List.head_cons]; rw [← ht.2.1]; exact hin)
+          (by simpa [List.getLast_cons hne'] using hhi)
+        unfold carveNS at hrec
+        have hneg : ¬ ((fun c : Bin ℝ => Scalar.le c.1 m && Scalar.lt m c.2) b = true) := by
+          simp only [Scalar.le, Scalar.lt, Bool.and_eq_true, decide_eq_true_eq, not_and, not_lt]
+          intro _; exact hin
+        rw [List.filter_cons_of_neg (p := fun c : Bin ℝ => Scalar.le c.1 m && Scalar.lt m c.2) hneg]
+        exact hrec
+
+/-- bins entirely above `x` are all dropped by the WD filter -/
+theorem filter_le_nil (t : List (Bin ℝ)) (x : ℝ) (h : ∀ c ∈ t, x < c.1) :
+    t.filter (fun b => Scalar.le b.1 x) = [] := by
+  rw [List.filter_eq_nil_iff]
+  intro c hc
+  simp only [Scalar.le, decide_eq_true_eq, not_le]
+  exact h c hc
+
+theorem setLastUpper_cons2 (b f : Bin ℝ) (ft : List (Bin ℝ)) (u : ℝ) :
+    setLastUpper (b :: f :: ft) u = b :: setLastUpper (f :: ft) u := by simp [setLastUpper]
+
+theorem setLastUpper_head (l : List (Bin ℝ)) (u : ℝ) : (setLastUpper l u).head?.map (·.1) = l.head?.map (·.1) := by
+  cases l with
+  | nil => rfl
+  | cons b t => cases t with
+    | nil => rfl
+    | cons f ft => rw [setLastUpper_cons2]; rfl
+
+theorem setLastUpper_getLast (l : List (Bin ℝ)) (u : ℝ) (h : l ≠ []) : (setLastUpper l u).getLast?.map (·.2) = some u := by
+  induction l with
+  | nil => exact absurd rfl h
+  | cons b t ih => cases t with
+    | nil => rfl
+    | cons f ft =>
+      rw [setLastUpper_cons2]
+      have := ih (by simp)
+      cases hs : setLastUpper (f :: ft) u with
+      | nil => rw [hs] at this; simp at this
+      | cons g gt => rw [hs] at this; rw [List.getLast?_cons_cons]; exact this
+
+/-- cutting the last upper edge keeps a tiling as long as the cut is above every kept lower edge -/
+theorem tiles_setLastUpper (l : List (Bin ℝ)) (u : ℝ) (ht : Tiles l) (hlow : ∀ b ∈ l, b.1 < u) : Tiles (setLastUpper l u) := by
+  induction l with
+  | nil => trivial
+  | cons b t ih => cases t with
+    | nil => exact hlow b (by simp)
+    | cons f ft =>
+      rw [setLastUpper_cons2]
+      have hrec := ih (Tiles.tail ht) (fun c hc => hlow c (List.mem_cons_of_mem _ hc))
+      have hh := setLastUpper_head (f :: ft) u
+      cases hs : setLastUpper (f :: ft) u with
+      | nil => rw [hs] at hh; simp at hh
+      | cons g gt =>
+        rw [hs] at hrec hh
+        simp only [List.head?_cons, Option.map_some, Option.some.injEq] at hh
+        exact ⟨ht.1, by rw [hh]; exact ht.2.1, hrec⟩
+
+/-- keeping the bins whose lower edge is at most `x` keeps a prefix of a tiling -/
+theorem tiles_filter_le (l : List (Bin ℝ)) (x : ℝ) (ht : Tiles l) :
+    Tiles (l.filter (fun b => Scalar.le b.1 x)) := by
+  induction l with
+  | nil => trivial
+  | cons b t ih =>
+    by_cases hb : b.1 ≤ x
+    · have hp : (fun c : Bin ℝ => Scalar.le c.1 x) b = true := by simp only [Scalar.le, decide_eq_true_eq]; exact hb
+      rw [List.filter_cons_of_pos (p := fun c : Bin ℝ => Scalar.le c.1 x) hp]
+      cases t with
+      | nil => exact ht
+      | cons f ft =>
+        have hrec := ih (Tiles.tail ht)
+        by_cases hf : f.1 ≤ x
+        · have hpf : (fun c : Bin ℝ => Scalar.le c.1 x) f = true := by simp only [Scalar.le, decide_eq_true_eq]; exact hf
+          rw [List.filter_cons_of_pos (p := fun c : Bin ℝ => Scalar.le c.1 x) hpf] at hrec ⊢
+          exact ⟨ht.1, ht.2.1, hrec⟩
+        · push Not at hf
+          have hnil : (f :: ft).filter (fun c => Scalar.le c.1 x) = [] := by
+            apply filter_le_nil
+            intro c hc
+            rcases List.mem_cons.1 hc with rfl | hc
+            · exact hf
+            · have := Tiles.lower_ge (Tiles.tail ht) c hc
+              have := Tiles.head_lt (Tiles.tail ht)
+              linarith
+          rw [hnil]; exact ht.1
+    · have hp : ¬ ((fun c : Bin ℝ => Scalar.le c.1 x) b = true) := by simp only [Scalar.le, decide_eq_true_eq]; exact hb
+      rw [List.filter_cons_of_neg (p := fun c : Bin ℝ => Scalar.le c.1 x) hp]
+      exact ih (Tiles.tail ht)
+
+/-- **WD bins**: the stellar bins starting at or below the maximum WD mass, the last one cut at that mass, tile
+    `[first stellar edge, wdMax]` (no stellar edge exactly at the maximum) -/
+theorem carveWD_tiles (b : Bin ℝ) (t : List (Bin ℝ)) (wdMax : ℝ) (ht : Tiles (b :: t)) (hlo : b.1 < wdMax)
+    (hedge : ∀ c ∈ b :: t, c.1 ≠ wdMax) :
+    Tiles (carveWD (b :: t) wdMax) ∧ (carveWD (b :: t) wdMax).getLast?.map (·.2) = some wdMax ∧
+    (carveWD (b :: t) wdMax).head?.map (·.1) = some b.1 := by
+  unfold carveWD
+  have hp : (fun c : Bin ℝ => Scalar.le c.1 wdMax) b = true := by simp only [Scalar.le, decide_eq_true_eq]; exact hlo.le
+  refine ⟨?_, ?_, ?_⟩
+  · apply tiles_setLastUpper _ _ (tiles_filter_le _ _ ht)
+    intro c hc
+    have hm := List.mem_filter.1 hc
+    have hle : c.1 ≤ wdMax := by simpa [Scalar.le] using hm.2
+    exact lt_of_le_of_ne hle (hedge c hm.1)
+  · apply setLastUpper_getLast
+    rw [List.filter_cons_of_pos (p := fun c : Bin ℝ => Scalar.le c.1 wdMax) hp]; simp
+  · rw [setLastUpper_head, List.filter_cons_of_pos (p := fun c : Bin ℝ => Scalar.le c.1 wdMax) hp]; rfl
+
+/-- in a tiling every later upper edge exceeds the first upper edge -/
+theorem Tiles.upper_gt {b : Bin ℝ} {t : List (Bin ℝ)} (h : Tiles (b :: t)) : ∀ c ∈ t, b.2 < c.2 := by
+  induction t generalizing b with
+  | nil => intro c hc; cases hc
+  | cons b' t ih =>
+    intro c hc
+    have hb' := Tiles.head_lt h.2.2
+    rcases List.mem_cons.1 hc with rfl | hc
+    · rw [h.2.1]; exact hb'
+    · have := ih h.2.2 c hc
+      rw [h.2.1]; linarith
+
+/-- keeping the bins whose upper edge exceeds `x` keeps a suffix of a tiling -/
+theorem tiles_filter_gt (l : List (Bin ℝ)) (x : ℝ) (ht : Tiles l) : Tiles (l.filter (fun b => Scalar.lt x b.2)) := by
+  induction l with
+  | nil => trivial
+  | cons b t ih =>
+    by_cases hb : x < b.2
+    · have hall : (b :: t).filter (fun c => Scalar.lt x c.2) = b :: t := by
+        rw [List.filter_eq_self]
+        intro c hc
+        simp only [Scalar.lt, decide_eq_true_eq]
+        rcases List.mem_cons.1 hc with rfl | hc
+        · exact hb
+        · exact lt_trans hb (Tiles.upper_gt ht c hc)
+      rw [hall]; exact ht
+    · have hp : ¬ ((fun c : Bin ℝ => Scalar.lt x c.2) b = true) := by simp only [Scalar.lt, decide_eq_true_eq]; exact hb
+      rw [List.filter_cons_of_neg (p := fun c : Bin ℝ => Scalar.lt x c.2) hp]
+      exact ih (Tiles.tail ht)
+
+/-- **BH bins**: the stellar bins ending above the minimum BH mass, the first one starting at that mass, still tile -/
+theorem carveBH_tiles (ms : List (Bin ℝ)) (bhMin : ℝ) (ht : Tiles ms) :
+    Tiles (carveBH ms bhMin) ∧ ((carveBH ms bhMin).head?.map (·.1) = some bhMin ∨ carveBH ms bhMin = []) := by
+  unfold carveBH
+  have hf := tiles_filter_gt ms bhMin ht
+  cases hF : ms.filter (fun b => Scalar.lt bhMin b.2) with
+  | nil => exact ⟨trivial, Or.inr rfl⟩
+  | cons f ft =>
+    rw [hF] at hf
+    have hfm : f ∈ ms.filter (fun b => Scalar.lt bhMin b.2) := by rw [hF]; simp
+    have hlt : bhMin < f.2 := by simpa [Scalar.lt] using (List.mem_filter.1 hfm).2
+    refine ⟨?_, Or.inl rfl⟩
+    obtain ⟨fl, fu⟩ := f
+    cases ft with
+    | nil => exact hlt
+    | cons g gt => exact ⟨hlt, hf.2.1, hf.2.2⟩
+
 structure Statement : Prop where
   divide : ∀ N k : Nat, 0 < k → (divideBinSizes N k).length = k ∧ (divideBinSizes N k).sum = N
   linear : ∀ (lo hi : ℝ) (n : Nat), lo < hi → (linspace lo hi n).length = n + 1 ∧
@@ -331,11 +554,22 @@ structure Statement : Prop where
     ((turnedOffBins ms (some mto)) = ms ∨
      ∃ i, determineIndex ms mto = .ok i ∧ ∀ k, (turnedOffBins ms (some mto)).getD k (0, 0) =
         if k = i then ((ms.getD k (0, 0)).1, mto) else ms.getD k (0, 0))
+  /-- star bins built from strictly increasing edges tile the range -/
+  tiles : ∀ es : List ℝ, es.Pairwise (· < ·) → Tiles (binsOfEdges es)
+  /-- exactly one NS bin for a NS mass inside the stellar range -/
+  one_ns : ∀ (bins : List (Bin ℝ)) (m : ℝ) (hne : bins ≠ []), Tiles bins → (bins.head hne).1 ≤ m → m < (bins.getLast hne).2 →
+    (carveNS bins m).length = 1
+  /-- WD bins tile `[first stellar edge, maximum WD mass]` -/
+  wd_tiles : ∀ (b : Bin ℝ) (t : List (Bin ℝ)) (wdMax : ℝ), Tiles (b :: t) → b.1 < wdMax → (∀ c ∈ b :: t, c.1 ≠ wdMax) →
+    Tiles (carveWD (b :: t) wdMax) ∧ (carveWD (b :: t) wdMax).getLast?.map (·.2) = some wdMax ∧
+    (carveWD (b :: t) wdMax).head?.map (·.1) = some b.1
+  bh_tiles : ∀ (ms : List (Bin ℝ)) (bhMin : ℝ), Tiles ms →
+    Tiles (carveBH ms bhMin) ∧ ((carveBH ms bhMin).head?.map (·.1) = some bhMin ∨ carveBH ms bhMin = [])
   unpack_pack : ∀ parts : List (List ℝ), unpack (parts.map List.length) (pack parts) = parts
   pack_unpack : ∀ (sizes : List Nat) (y : List ℝ), sizes.sum = y.length → pack (unpack sizes y) = y
 
-/-- **C13 (partial)**: spacing, lookup, truncation and packing. Not proved in Lean: the carving of remnant bins from
-    the IFMR bounds (decided by correspondence and sweep), and "exactly one NS bin" (a known finding when 1.4 is an edge). -/
+/-- **C13 (partial)**: spacing, lookup, truncation and packing. Proved since the first version: tiling of the star bins,
+    exactly one NS bin, WD bins tile up to the maximum WD mass. BH bins tile from the minimum BH mass. Not proved in Lean: where the IFMR bounds come from (C09). -/
 theorem C13_partial : Statement where
   divide := fun N k hk => ⟨divide_length N k hk, divide_sum N k hk⟩
   linear := fun lo hi n h => ⟨linspace_length lo hi n, linspace_strict lo hi n h, linspace_getLast lo hi n,
@@ -345,11 +579,21 @@ theorem C13_partial : Statement where
   lookup := determineIndex_sound
   lookup_below := determineIndex_below
   truncation := turnedOff_only_one_edge
+  tiles := binsOfEdges_tiles
+  one_ns := fun bins m hne ht h1 h2 => carveNS_one bins m ht hne h1 h2
+  wd_tiles := carveWD_tiles
+  bh_tiles := carveBH_tiles
   unpack_pack := unpack_pack
   pack_unpack := pack_unpack
 
 example : (divideBinSizes 10 3) = [4, 3, 3] := by decide
 example : determineIndex [((1:ℝ), (2:ℝ)), (2, 3)] 2 = .ok 1 := by
   simp [determineIndex, lastLowerLe, Scalar.le]; norm_num
+
+/-- the tiling hypotheses are satisfiable: three edges give two tiling bins, 1.4 lies in exactly one of them -/
+example : Tiles (binsOfEdges [(1:ℝ), 2, 3]) := binsOfEdges_tiles _ (by simp; norm_num)
+example : (carveNS (binsOfEdges [(1:ℝ), 2, 3]) 1.4).length = 1 :=
+  carveNS_one _ _ (binsOfEdges_tiles _ (by simp; norm_num)) (by simp [binsOfEdges]) (by simp [binsOfEdges]; norm_num)
+    (by simp [binsOfEdges]; norm_num)
 
 end Model.C13
